@@ -28,3 +28,35 @@ if not hasattr(numpy, "trapz") and hasattr(numpy, "trapezoid"):
 
 import warnings
 warnings.filterwarnings("ignore")
+
+# ---- uninitialised memory made visible ------------------------------------------------------------------------------
+# numpy.empty() hands out whatever the heap contains; a result that reads entries it never wrote is then correct or
+# wrong depending on the process history (found in the EMBV problem factory, the haplotype block values and the genic
+# variance tensors).  In the harness process every array coming from numpy.empty / empty_like is pre-filled with a
+# sentinel (NaN for floats, a large value for integers), so such a read shows up deterministically in whichever property
+# the value belongs to.  Code that writes every entry it later reads behaves exactly as before.  VERIF_POISON_EMPTY=0
+# switches this off.
+if os.environ.get("VERIF_POISON_EMPTY", "1") != "0" and not getattr(numpy, "_verif_poisoned", False):
+    _orig_empty = numpy.empty
+    _orig_empty_like = numpy.empty_like
+
+    def _poison(a):
+        try:
+            k = a.dtype.kind
+            if k == "f" or k == "c":
+                a.fill(numpy.nan)
+            elif k == "i" or k == "u":
+                a.fill(numpy.iinfo(a.dtype).max // 3)
+        except Exception:
+            pass
+        return a
+
+    def _empty(*args, **kwargs):
+        return _poison(_orig_empty(*args, **kwargs))
+
+    def _empty_like(*args, **kwargs):
+        return _poison(_orig_empty_like(*args, **kwargs))
+
+    numpy.empty = _empty
+    numpy.empty_like = _empty_like
+    numpy._verif_poisoned = True
